@@ -398,7 +398,12 @@ func (v *objectBase) unmarshal(p []byte, eof bool, maxElems int) (err error) {
 			return oe.WithMessage(err, fmt.Sprintf("unmarshal prop %v", string(u)))
 		}
 
-		v.Set(string(u), a)
+		// Keep every decoded property, also when its name repeats, so that Size()
+		// is the number of bytes consumed and the caller stays aligned on the next value.
+		v.lock.Lock()
+		v.properties = append(v.properties, &property{key: u, value: a})
+		v.lock.Unlock()
+
 		p = p[a.Size():]
 		return nil
 	}
